@@ -31,6 +31,8 @@ open Ezpz
 #check @newtonStep_eq_gnMap                         -- one model round = the damped Gauss–Newton map
 #check @model_newtonRun_C02                         -- C02 for the continuing rounds the model's loop executes
 #check @model_newtonRun_C02_2                       -- ... for every kind except point-on-arc
+#check @model_newtonLoop_C02                        -- ... for the loop's result (step-size return included)
+#check @model_solve_C02_single_level                -- ... at the public entry point, one priority level
 #check @pointLineDistance_numerator_forms_agree     -- fix F21 does not change the meaning
 #check @circleTangentToCircle_row_or_flag           -- fix F22
 #check @GN.damped_defect_on_kernel                 -- why F15 happens
@@ -131,6 +133,7 @@ open Ezpz
 #check @C14.solve_cap_monotone_err
 #check @C14.cap_not_monotone_multi_level            -- known finding F11, witness over ℝ
 #check @C14.solve_within_tolerance
+#check @C14.solve_within_tolerance_of_silentOn      -- no ghost flag, satisfiable with the default config
 
 /-! ### C15 — warnings are truthful -/
 #check @lint_fires_parallel
